@@ -400,11 +400,15 @@ fn mutations(w: usize, idx: usize) -> Vec<Mut> {
 
 const PATHS: [&str; 2] = ["direct", "wire"];
 
-fn explore(world: &World, full_reloc: bool) -> Report {
+fn explore(world: &World, full_reloc: bool, ctx: &Ctx, cap: f64) -> Report {
     let fx = &world.fx;
     let w = fx.width;
     let coords: Vec<(u16, u16)> = (0..w as u16).flat_map(|r| (0..w as u16).map(move |c| (r, c))).collect();
     par_cases(coords, |req, rep| {
+        if ctx.elapsed_s() > cap {
+            rep.cap_hit(&format!("wall cap {cap}s inside w={w} layout={}", fx.layout));
+            return;
+        }
         let base = |src: (u16, u16), axis: u8, foreign: bool, mutation: Mut, path: &str| Case {
             seed: fx.seed,
             width: w,
@@ -498,7 +502,7 @@ fn main() {
                     break 'outer;
                 }
                 let world = World::build(w, l, ctx.seed, true, &ctx.id);
-                let r = explore(&world, full);
+                let r = explore(&world, full, &ctx, cap);
                 squares.push(json!({"width": w, "layout": LAYOUTS[l], "relocation": if full {"whole square"} else {"row+column+transposed"}, "evaluations": r.evaluations}));
                 rep.merge_in(r);
             }
